@@ -79,11 +79,13 @@ impl Glyph {
             writer.write_event(image.to_event()).map_err(GlifWriteError::Buffer)?;
         }
 
-        if !self.contours.is_empty() || !self.components.is_empty() {
+        // Contours without points draw nothing and are dropped when read back, skip them.
+        let has_contours = self.contours.iter().any(|c| !c.points.is_empty());
+        if has_contours || !self.components.is_empty() {
             writer
                 .write_event(Event::Start(BytesStart::new("outline")))
                 .map_err(GlifWriteError::Buffer)?;
-            for contour in &self.contours {
+            for contour in self.contours.iter().filter(|c| !c.points.is_empty()) {
                 contour.write_xml(&mut writer).map_err(GlifWriteError::Buffer)?;
             }
             for component in &self.components {
